@@ -27,7 +27,7 @@ if [ "${SKIP_CONFIRM:-}" = "" ]; then
   (cd $M && go test -vet=off -count=1 ${DEMO_FLAGS:-} -run "${DEMO_RUN:-Seeded|Demo|seeded}" $PK 2>&1 | tail -4)
   git apply $D/patch.diff
 fi
-cd /verif
+cd ${VERIF_SNAP:-/verif}
 for P in "$@"; do
   echo "--- check $P against the changed tree"
   VERIF_REPO=$WT VERIF_QUICK_S=${QUICK_S:-20} ./check $P --tier quick 2>&1 | grep -v "^check: built\|^check: property=" | cut -c1-700 | tail -${TAILN:-12}
